@@ -162,7 +162,9 @@ impl<E: FieldElement> DeepCompositionPoly<E> {
 
         // set the coefficients of the DEEP composition polynomial
         self.coefficients = trace_poly;
-        assert_eq!(self.poly_size() - 2, self.degree());
+        // NOTE: the degree is smaller than trace_length - 2 when all trace polynomials have less
+        // than maximal degree (e.g. an all-constant or short-period trace)
+        assert!(self.degree() <= self.poly_size() - 2);
     }
 
     // LOW-DEGREE EXTENSION
